@@ -25,6 +25,13 @@ Streams (three-way, DESIGN 5.C02)
            constructors `cls(..)` / `type(self)(..)`, class attributes holding classes, user
            descriptors, reached by class-level access on (two-level) subclasses, through
            instances and class objects held in variables, chains, helper functions, tuple results
+           sub-stream yield-order (gen/flowprog.py:gen_segprogram): generator functions made of
+           top-level yields and simple for loops in any interleaving, consumed position by position
+           by tuple unpacking, every target probed
+  yieldorder  the REAL get_yield_lazy_values on generated generator functions vs
+           Model.YieldOrder.order (grouping shape read from the source): the element stream lazy
+           value by lazy value, given-up cases included; failing-input search = the direct oracle
+           on the same generator unpacked
   lookup   class-level access to an (inherited) classmethod returning `cls`: Script.infer vs
            Model.ClassLookup.jediBoundCls, CPython vs pyBoundCls (exact; ALL hierarchies of <= 3
            classes over 2 names in the thorough tier, random larger ones)
@@ -37,7 +44,7 @@ from common import short
 from gen import pycore as P
 from props import c02_flow
 
-MODELS = ['PyCore', 'ArgBind', 'FlowCache', 'ClassLookup']
+MODELS = ['PyCore', 'ArgBind', 'FlowCache', 'ClassLookup', 'YieldOrder']
 LEAN_TARGETS = ['JediModel.Props.C02', 'JediModel.Drivers.C02']
 MANIFEST = dict(
     text='Theorem may_sound_partial over Model/PyCore: for every program of the pure core (literals, names, tuples, '
@@ -84,7 +91,19 @@ MANIFEST = dict(
          'binding through inheritance: inherited classmethod / staticmethod / property / user descriptor reached through '
          'a subclass object, an instance, a class held in a variable or class attribute; `cls(..)`, `type(self)(..)`, '
          'chains, tuple results) are generated with an interpreter in the loop and judged with exactness at every '
-         'module-level probe outside loops.',
+         'module-level probe outside loops. '
+         'Order of a generator\'s element stream (Model/YieldOrder): yield_order_is_run / yield_order_kth (FULL) - for '
+         'EVERY generator body of plain yields and simple for statements in any interleaving and every number of '
+         'elements per loop, get_yield_lazy_values (grouping transcribed; list-with-last_for_stmt vs keyed-dict shape '
+         'read from function.py as yieldGroupsKeyed) does not give up and emits, position by position, exactly the '
+         '(yield, iteration) sequence the run yields; yield_order_keyed_witness: with one dict entry for all top-level '
+         'yields `yield K1(); for x in (K2(), K3()): yield x; yield K4()` is emitted K1, K4, K2, K3 (kernel-checked); '
+         'yield_order_same_for_id_witness. Tie (stream yieldorder): the REAL get_yield_lazy_values on generated '
+         'generator functions (top / try / simple for with 1-2 yields / if / while / nested for / tuple-target for, '
+         'all bodies of <= 2 (thorough <= 4) statements + random longer) = the model, lazy value by lazy value, given-up '
+         'cases included. Oracle: flow sub-stream yield-order (gen/flowprog.py:gen_segprogram): generator functions of '
+         'top-level yields and simple for loops in any interleaving, unpacked position by position, every target '
+         'probed, exactness where one creation site reaches the position.',
     note='Modelled not verified: only the PyCore fragment is under the theorem (no loops, attribute writes outside __init__, '
          'generators, decorators, containers other than tuples, multi-module). The pretty-printer of the harness '
          'and the name<->index mapping are trusted. Outside the fragment: nothing is claimed by a theorem; the stream '
@@ -671,12 +690,15 @@ def run(ctx):
     nlookup = len(lookup_items)
     si_items = setiter_items(ctx)
     reqs += [{'op': 'setiter', 'streams': it} for it in si_items]
+    yo_items = c02_flow.yieldorder_items(ctx)
+    reqs += [c02_flow.yieldorder_request(it) for it in yo_items]
     # the Lean driver (one call) runs while the real code is exercised in worker processes
     with ThreadPoolExecutor(1) as pool:
         fut = pool.submit(common.run_driver_parallel, 'C02', reqs) if ctx.model_ok else None
         outs = common.parallel_map('props.c02', 'analyse', progs)
         ctx.bind_outs = common.parallel_map('props.c02', 'analyse_bind', ctx.bind_items)
         lookup_outs = common.parallel_map('props.c02_flow', 'analyse_lookup', lookup_items)
+        yo_outs = common.parallel_map('props.c02_flow', 'analyse_yieldorder', yo_items)
         answers = fut.result() if fut is not None else [None] * len(reqs)
     how = 'jedi.Script(source).infer(line, 0) vs executing the program (harness/gen/pycore.py:run)'
     for out, ans, (enc, nm), prog in zip(outs, answers, encs, progs):
@@ -731,7 +753,10 @@ def run(ctx):
                                                              'cpython': 'probe not reached', 'model': m['exec']}, 1500))
     run_bind(ctx, answers[len(progs):len(progs) + nbind] if ctx.model_ok else None, how)
     c02_flow.judge_lookup(ctx, lookup_items, lookup_outs, answers[len(progs) + nbind:len(progs) + nbind + nlookup])
-    judge_setiter(ctx, si_items, answers[len(progs) + nbind + nlookup:] if ctx.model_ok else None)
+    nsi = len(si_items)
+    judge_setiter(ctx, si_items, answers[len(progs) + nbind + nlookup:len(progs) + nbind + nlookup + nsi]
+                  if ctx.model_ok else None)
+    c02_flow.judge_yieldorder(ctx, yo_items, yo_outs, answers[len(progs) + nbind + nlookup + nsi:])
     # ---- beyond the fragment: argument binding of methods / lambdas, judged by the direct oracle only
     seeds = ['%s-argbind-%d' % (ctx.seed, i) for i in range(ctx.size(40, 800))]
     for recs in common.parallel_map('props.c02', 'analyse_argbind', seeds):
